@@ -35,9 +35,21 @@ def number_comma_digit_hazard(v: core.Violation, sess: Any, op: Optional[dict]) 
     return False
 
 
+def slash_number_currency_hazard(v: core.Violation, sess: Any, op: Optional[dict]) -> bool:
+    """'/' NUMBER CURRENCY written without any blank: lexes as a slash-currency ('/0.5USD')."""
+    if sess is None:
+        return False
+    toks = [t for t in sess.root.token_store if t.raw_text]
+    for a, b, c in zip(toks, toks[1:], toks[2:]):
+        if type(a).__name__ == 'MulOp' and a.raw_text == '/' and isinstance(b, models.Number) and isinstance(c, models.Currency):
+            return True
+    return False
+
+
 PREDICATES: dict[str, Callable[[core.Violation, Any, Optional[dict]], bool]] = {
     'txn_comment_after_last_meta': txn_comment_after_last_meta,
     'number_comma_digit_hazard': number_comma_digit_hazard,
+    'slash_number_currency_hazard': slash_number_currency_hazard,
 }
 
 _OPEN: Optional[list[dict]] = None
